@@ -24,17 +24,19 @@ var (
 
 // Env is one E1 run.
 type Env struct {
-	RC        *core.RunCtx
-	S         *simrt.Sim
-	W         *harness.World
-	ClusterID uint64
-	RootPath  string
-	stopNem   bool
-	nemDone   chan struct{}
-	Crashes   int
-	MaxJump   time.Duration
-	NemKinds  []string
-	OnStart   func(n *harness.Node)
+	RC         *core.RunCtx
+	S          *simrt.Sim
+	W          *harness.World
+	ClusterID  uint64
+	RootPath   string
+	stopNem    bool
+	nemDone    chan struct{}
+	Crashes    int
+	MaxJump    time.Duration
+	NemKinds   []string
+	OnStart    func(n *harness.Node)
+	memberVals map[int]string
+	OnTSO      func(node, inv, ret int)
 }
 
 // Opts configures Setup.
@@ -54,10 +56,13 @@ func Setup(rc *core.RunCtx, o Opts) *Env {
 	pStall := 0.0
 	maxStall := time.Second
 	if o.Faults {
-		pStall = rc.KnobF("p_stall", 0, 0, 0.002, 0.02)
+		pStall = rc.KnobF("p_stall", 0, 0.0003, 0.003, 0.02)
 		maxStall = rc.KnobD("max_stall", 100*time.Millisecond, time.Second, 4*time.Second)
 	}
 	s.SetSchedKnobs(pSwitch, pLock, pStall, maxStall)
+	if o.Faults {
+		s.SetFreezeKnobs(rc.KnobF("p_freeze", 0, 0.001, 0.01), rc.KnobD("max_freeze", 50*time.Millisecond, time.Second, 5*time.Second))
+	}
 	n := o.MinNodes + rc.Knob("nodes", o.MaxNodes-o.MinNodes+1)
 	e.W = harness.NewWorld(s, n)
 	e.W.Etcd.Faults.BaseLatency = rc.KnobD("etcd_latency", 0, 200*time.Microsecond, 2*time.Millisecond)
@@ -217,6 +222,14 @@ func (e *Env) inject(kind string) {
 		if n := w.Etcd.CancelWatches(nd.ID); n > 0 {
 			s.Count("fault.watch-cancel")
 		}
+	case "resign":
+		if !nd.Up || nd.Srv == nil || !nd.Srv.SimMember().IsLeader() {
+			return
+		}
+		srv := nd.Srv
+		s.Count("fault.resign")
+		e.RC.Note("resign %s @%v", nd.Name, s.Elapsed().Round(time.Millisecond))
+		s.Spawn(nd.ID, "resign", func() { srv.SimMember().ResetLeader() })
 	case "net-cut":
 		other := w.Nodes[s.Choose(len(w.Nodes), "nem.node2")]
 		d := time.Duration(100+s.Choose(5000, "nem.cut")) * time.Millisecond
@@ -240,6 +253,7 @@ func (e *Env) Quiesce() {
 		w.Etcd.SetPartitioned(n.ID, false)
 	}
 	e.S.SetSchedKnobs(0.2, 0, 0, 0)
+	e.S.SetFreezeKnobs(0, 0)
 	if w.Etcd.EtcdLeaderNode() < 0 {
 		w.Etcd.SetEtcdLeader(0)
 	}
@@ -275,3 +289,7 @@ func MemberValueOf(n *harness.Node) string {
 
 var _ = fmt.Sprintf
 var _ = simetcd.MemberID
+
+type simetcdCommit = simetcd.Commit
+
+func simetcdMemberID(node int) uint64 { return simetcd.MemberID(node) }
